@@ -3,7 +3,7 @@
 recorded in known_findings.json against the check of its property, on scratch copies of the repository
 (bin/mutant.py; /repo is never touched), and write seeded/RESULTS.json + seeded/RESULTS.md.
 
-  selftest.py [--tier quick] [--jobs 4] [--only C06,C07]
+  selftest.py [--tier quick] [--jobs 4] [--only C06,C07] [--out RESULTS]      (VERIF_SEED is passed on to the checks)
 """
 import json
 import os
@@ -68,13 +68,16 @@ def main():
     with ThreadPoolExecutor(max_workers=jobs) as ex:
         results = list(ex.map(run_one, todo))
     subprocess.call(["rm", "-rf", tmp])
-    path = os.path.join(sd, "RESULTS.json")
+    # --out NAME: write seeded/NAME.json / NAME.md instead (e.g. a run under another VERIF_SEED, to see which catches
+    # depend on the seed)
+    outname = arg("--out", "RESULTS")
+    path = os.path.join(sd, outname + ".json")
     old = []
     if only and os.path.exists(path):
         old = [r for r in json.load(open(path)) if r["property"] not in only]
     results = sorted(old + results, key=lambda r: (r["property"], r["kind"], r["change"]))
     json.dump(results, open(path, "w"), indent=1)
-    with open(os.path.join(sd, "RESULTS.md"), "w") as f:
+    with open(os.path.join(sd, outname + ".md"), "w") as f:
         f.write("| property | change | kind | verdict (%s tier) | first rejection |\n|---|---|---|---|---|\n" % tier)
         for r in results:
             f.write("| %s | %s | %s | %s (%d) | %s |\n" % (r["property"], r["change"], r["kind"], r["verdict"], r["violations"],
